@@ -557,7 +557,8 @@ class Kernel:
             async with ctx.resource_added.stream_events(max_queue_size=1000) as stream:
                 started.set()
                 async for ev in stream:
-                    types = ",".join(str(TYPE_ID.get(t, "?")) for t in ev.resource_types)
+                    # (the order of the types inside an event is nobody's promise: sorted)
+                    types = ",".join(str(n) for n in sorted(TYPE_ID.get(t, 99) for t in ev.resource_types))
                     ok = ev.source is ctx and ev.topic == "resource_added" and isinstance(ev.time, float)
                     self.events.append(
                         f"ev {cid} [{types}] {ev.resource_name} {ev.resource_description or '-'} "
